@@ -2662,6 +2662,16 @@ func totalFontVariants(file []byte) []totalFontVariant {
 			}
 		}
 	}
+	// … combined with a table whose decoder trusts the size of its section: a CFF table whose Private
+	// DICT size (checked against p.Size() since b062c5e) is 60 MiB, inside a record inflated by 64 MiB
+	if cffTab := tabs["CFF "]; cffTab != nil && len(names) >= 2 {
+		if big := totalCffRebuild(cffTab, nil, nil, 60<<20); big != nil {
+			m := clone()
+			m["CFF "] = big
+			out = append(out, totalFontVariant{"inflate:CFF+private-size", totalJoinFontInflated(scaler, m, "CFF ", 1<<26)})
+			out = append(out, totalFontVariant{"inflate:CFF+private-size-noinflate", totalJoinFont(scaler, m)})
+		}
+	}
 	word := func(t []byte, at, delta int) []byte {
 		c := append([]byte(nil), t...)
 		if at+2 <= len(c) {
